@@ -74,6 +74,19 @@ const TARGET_CHARS: &[char] = &['/', 'a', 'b', '.', '-', '0', ' ', ',', ';', '"'
 const KEYS: &[&str] = &["rt", "if", "sz", "title", "ct", "obs", "title*", "k", "x-y_z", "a1", "anchor", "rel"];
 pub const VALUE_ALPHABET: &[char] = &['"', '\\', ',', ';', '<', '>', '=', ' ', '\n', '\r', 'a', '0', 'é', '😁'];
 
+/// code points whose low byte (or low 16 bits) equals a structural ASCII character: " \ , ; < > =
+pub fn lookalikes() -> Vec<char> {
+    let mut v = Vec::new();
+    for c in ['"', '\\', ',', ';', '<', '>', '=', ' '] {
+        for hi in [0x100u32, 0x2000, 0x1F600, 0x10000] {
+            if let Some(ch) = char::from_u32(hi + c as u32) {
+                v.push(ch);
+            }
+        }
+    }
+    v
+}
+
 fn gen_target(r: &mut Rng) -> String {
     match r.below(5) {
         0 => "/sensors/temp".to_string(),
@@ -102,7 +115,13 @@ fn gen_value(r: &mut Rng) -> String {
         }
         4 => {
             let n = r.usize_below(20);
-            (0..n).map(|_| char::from_u32(r.range(0x20, 0x2ff) as u32).unwrap_or('x')).collect()
+            if r.bool() {
+                (0..n).map(|_| char::from_u32(r.range(0x20, 0x2ff) as u32).unwrap_or('x')).collect()
+            } else {
+                // characters that look like structural ones after truncation, next to real ones
+                let la = lookalikes();
+                (0..n).map(|_| if r.chance(2, 3) { *r.pick(&la) } else { *r.pick(VALUE_ALPHABET) }).collect()
+            }
         }
         _ => {
             let n = r.usize_below(10);
@@ -358,6 +377,21 @@ pub fn run_c16(ctx: &mut Ctx) {
             rep.distinct(fnv(s.as_bytes()));
         }
     }
+    if shard == 0 {
+        for la in lookalikes() {
+            for follow in ["", ",", ";", "x", "\"", "\\", ",;x"] {
+                let s = format!("{}{}", la, follow);
+                let doc = vec![
+                    Link { target: "/x".into(), attrs: vec![("k".into(), AttrKind::Plain(s.clone())), ("q".into(), AttrKind::Quoted(s.clone()))] },
+                    Link { target: format!("/{}", la), attrs: vec![("z".into(), AttrKind::Quoted(s.clone()))] },
+                    Link { target: "/v".into(), attrs: vec![("l".into(), AttrKind::Plain("end".into()))] },
+                ];
+                c16_one(rep, &doc, follow.len() % 2 == 0);
+                rep.distinct(fnv(s.as_bytes()));
+                rep.count("lookalike_documents");
+            }
+        }
+    }
     for _ in 0..budget {
         let doc = gen_doc(&mut r, 0);
         let nl = r.bool();
@@ -559,8 +593,43 @@ pub fn run_c17(ctx: &mut Ctx) {
             c17_one(rep, &doc, &mut stats);
         }
     }
+    // a second exhaustive walk whose alphabet has several kinds of white space (ASCII and not)
+    {
+        let ws_alpha: [char; 10] = ['<', '>', ',', ';', '"', ' ', '\u{a0}', '\u{3000}', 'a', '\t'];
+        let ws_max = match level {
+            0 => 2,
+            1 => 5,
+            _ => 6,
+        };
+        let b = ws_alpha.len() as u64;
+        for len in 0..=ws_max {
+            for v in 0..b.pow(len as u32) {
+                idx += 1;
+                if idx % nshards != shard {
+                    continue;
+                }
+                s.clear();
+                let mut x = v;
+                for _ in 0..len {
+                    s.push(ws_alpha[(x % b) as usize]);
+                    x /= b;
+                }
+                let before = stats.0 + stats.1;
+                c17_one(rep, &s, &mut stats);
+                if stats.0 + stats.1 > before {
+                    rep.distinct_enumerated();
+                }
+            }
+        }
+        // white-space runs in front of links, at the start and after a separator
+        for ws in ["\u{a0}", "\u{3000}", " \u{85}", "\r\n\u{2028}", "\u{2003}\u{2003}", "\t\u{a0} ", "\u{feff}", "\u{b}\u{c}"] {
+            for doc in [format!("{}</a>", ws), format!("</a>;rt=\"x\",{}</b>", ws), format!("</a>,{}</b>;k=v,{}</c>", ws, ws), format!("</a>;k={}v{}", ws, ws), format!("</a>;{}k{}={}\"q\"{}", ws, ws, ws, ws)] {
+                c17_one(rep, &doc, &mut stats);
+            }
+        }
+    }
     // random longer strings over a wider alphabet
-    let wide: Vec<char> = C17_ALPHABET.iter().copied().chain(['😁', '\n', '\r', '\t', 'Z', '0', '/', '*', '\u{7ff}', '\u{800}']).collect();
+    let wide: Vec<char> = C17_ALPHABET.iter().copied().chain(['😁', '\n', '\r', '\t', 'Z', '0', '/', '*', '\u{7ff}', '\u{800}', '\u{a0}', '\u{3000}', '\u{85}', '\u{2028}', '\u{2003}', '\u{feff}', '\u{b}', '\u{c}']).chain(lookalikes()).collect();
     for _ in 0..budget {
         let len = r.usize_below(60);
         let mut t = String::new();
@@ -693,7 +762,7 @@ fn c18_doc(rep: &mut Report, doc: &Doc, stats: &mut (u64, u64), kstep: usize) {
 
 pub fn run_c18(ctx: &mut Ctx) {
     let mut r = ctx.rng(18);
-    let (budget, shard, level) = (ctx.budget, ctx.shard, ctx.level);
+    let (budget, shard, level, ctx_nshards) = (ctx.budget, ctx.shard, ctx.level, ctx.nshards);
     let rep = &mut ctx.rep;
     let mut stats = (0u64, 0u64);
     if shard == 0 && level > 0 {
@@ -705,6 +774,51 @@ pub fn run_c18(ctx: &mut Ctx) {
         ];
         c18_doc(rep, &doc, &mut stats, 1);
         rep.distinct(fnv(describe(&doc).as_bytes()));
+    }
+    // quoted values of EVERY length up to 200 bytes (a writer that batches its output has internal
+    // boundaries somewhere), plain and with escapes / multi-byte characters at varying offsets
+    if level > 0 {
+        let lens: Vec<usize> = (0..=200).collect();
+        for (li, &len) in lens.iter().enumerate() {
+            if (li as u64) % ctx_nshards != shard {
+                continue;
+            }
+            for variant in 0..3 {
+                let mut v = String::new();
+                let mut k = 0usize;
+                while v.len() < len {
+                    let c = match variant {
+                        0 => 'x',
+                        1 => {
+                            if k % 7 == 3 {
+                                '"'
+                            } else if k % 11 == 5 {
+                                '\\'
+                            } else {
+                                'y'
+                            }
+                        }
+                        _ => {
+                            if k % 5 == 2 {
+                                'é'
+                            } else {
+                                'z'
+                            }
+                        }
+                    };
+                    if v.len() + c.len_utf8() > len {
+                        v.push('p');
+                    } else {
+                        v.push(c);
+                    }
+                    k += 1;
+                }
+                let doc = vec![Link { target: "/l".into(), attrs: vec![("title".into(), AttrKind::Quoted(v.clone())), ("rt".into(), AttrKind::Plain("t t".into()))] }, Link { target: "/m".into(), attrs: vec![("d".into(), AttrKind::Plain(v))] }];
+                rep.distinct(fnv(describe(&doc).as_bytes()));
+                c18_doc(rep, &doc, &mut stats, 1);
+                rep.count("long_value_documents");
+            }
+        }
     }
     for _ in 0..budget {
         let mut doc = gen_doc(&mut r, 2);
